@@ -102,7 +102,7 @@ def run(res, tier, seed):
     res.assumptions = ['numeric arguments are homogeneous numeric strings (grammar -?d+(.d+)?) or numbers', 'group keys of one type',
                        'IEEE rounding is outside the model: values are dyadic decimals, results recovered exactly with limit_denominator(10**6)']
     rnd = random.Random(seed * 4256233 + 3)
-    cases = gen_cases(rnd, 6000 if tier == 'quick' else 150000)
+    cases = gen_cases(rnd, 15000 if tier == 'quick' else 150000)
     for c in cases:
         res.count('group_keys=%d' % len(c['q'].get('group') or []))
         for it in c['q']['items']:
